@@ -44,6 +44,46 @@ def _accs(fn):
     return out
 
 
+def run_extra(ctx: Ctx):
+    # ---------------------------------------------------------------- R10.9 answers never come from state that outlives the question
+    from .common import process_state_rule
+    process_state_rule(ctx, "R10.9", [ctx.repo.func("Project.schedule")],
+                       "a container's completeness or span is answered from another container's, scenario's or run's record")
+
+
+def rollup_order_rule(ctx: Ctx, rid: str):
+    """One call of the roll-up closes every nesting level that is complete (C10 R10.7 / C07 R07.8)."""
+    upd = ctx.repo.func("Project._updateContainerTaskStatus")
+    from ..order import local_resolver as _lr0
+    loops_u = [l for l in own_nodes(upd) if isinstance(l, ast.For) and getattr(l, "_parent", None) is upd.node and (
+        "self.tasks" in norm(l.iter) or (isinstance(l.iter, ast.Name) and any("self.tasks" in norm(v) for v in _lr0(upd.node)(l.iter))))]
+    if len(loops_u) != 1:
+        raise AnchorMissing(f"_updateContainerTaskStatus: {len(loops_u)} top-level loops over self.tasks")
+    it = loops_u[0].iter
+    fix = any(isinstance(w, ast.While) for w in own_nodes(upd) if any(x is loops_u[0] for x in ast.walk(w)))
+    children_first = isinstance(it, ast.Call) and norm(it.func) == "reversed"
+    if isinstance(it, ast.Name):
+        # a named list: reversed when it was built reversed, sliced [::-1] or .reverse()d before the loop
+        from ..order import local_resolver as _lr
+        vals = _lr(upd.node)(it)
+        rev_built = any((isinstance(v, ast.Call) and (norm(v.func) == "reversed" or any(isinstance(a, ast.Call) and norm(a.func) == "reversed" for a in v.args)))
+                        or (isinstance(v, ast.Subscript) and norm(v.slice) in ("::-1", "slice(None, None, -1)")) for v in vals)
+        rev_called = any(isinstance(c, ast.Call) and isinstance(c.func, ast.Attribute) and c.func.attr == "reverse" and norm(c.func.value) == it.id
+                         and c.lineno < loops_u[0].lineno for c in own_nodes(upd))
+        children_first = (rev_built or rev_called) and all("self.tasks" in norm(v) for v in vals)
+        if children_first:
+            it = ast.Call(func=ast.Name(id="reversed", ctx=ast.Load()), args=[it], keywords=[])
+    if not (children_first or fix) and norm(it) != "self.tasks":
+        from ..model import Inconclusive
+        raise Inconclusive(f"_updateContainerTaskStatus: iteration order {norm(it)} is neither declaration order, its reverse, nor a fixpoint loop")
+    ok = children_first or fix
+    ctx.ob(rid, f"{upd.qual}: roll-up order {norm(it)}", (upd, loops_u[0]), ok,
+           "children are visited before their container (declaration order reversed) or the pass is repeated to a fixpoint" if ok else
+           "containers are visited in declaration order (parents first) in a single pass: each call closes one nesting level only, so an "
+           "outer container whose children are all scheduled stays unscheduled and its dependants are reported as deadlocked",
+           key=f"{rid}|_updateContainerTaskStatus|order")
+
+
 def run(ctx: Ctx):
     repo = ctx.repo
     ss = repo.func("Project.scheduleScenario")
@@ -177,35 +217,7 @@ def run(ctx: Ctx):
            "a path from scheduleScenario skips finishScenario: when a leaf could not be placed the outer containers of a deep tree are "
            "never rolled up although all their children are scheduled",
            key="R10.4|Project.schedule|finish postdom")
-    # ---------------------------------------------------------------- R10.7 one roll-up call closes every complete nesting level
-    from ..order import local_resolver as _lr0
-    loops_u = [l for l in own_nodes(upd) if isinstance(l, ast.For) and getattr(l, "_parent", None) is upd.node and (
-        "self.tasks" in norm(l.iter) or (isinstance(l.iter, ast.Name) and any("self.tasks" in norm(v) for v in _lr0(upd.node)(l.iter))))]
-    if len(loops_u) != 1:
-        raise AnchorMissing(f"_updateContainerTaskStatus: {len(loops_u)} top-level loops over self.tasks")
-    it = loops_u[0].iter
-    fix = any(isinstance(w, ast.While) for w in own_nodes(upd) if any(x is loops_u[0] for x in ast.walk(w)))
-    children_first = isinstance(it, ast.Call) and norm(it.func) == "reversed"
-    if isinstance(it, ast.Name):
-        # a named list: reversed when it was built reversed, sliced [::-1] or .reverse()d before the loop
-        from ..order import local_resolver as _lr
-        vals = _lr(upd.node)(it)
-        rev_built = any((isinstance(v, ast.Call) and (norm(v.func) == "reversed" or any(isinstance(a, ast.Call) and norm(a.func) == "reversed" for a in v.args)))
-                        or (isinstance(v, ast.Subscript) and norm(v.slice) in ("::-1", "slice(None, None, -1)")) for v in vals)
-        rev_called = any(isinstance(c, ast.Call) and isinstance(c.func, ast.Attribute) and c.func.attr == "reverse" and norm(c.func.value) == it.id
-                         and c.lineno < loops_u[0].lineno for c in own_nodes(upd))
-        children_first = (rev_built or rev_called) and all("self.tasks" in norm(v) for v in vals)
-        if children_first:
-            it = ast.Call(func=ast.Name(id="reversed", ctx=ast.Load()), args=[it], keywords=[])
-    if not (children_first or fix) and norm(it) != "self.tasks":
-        from ..model import Inconclusive
-        raise Inconclusive(f"_updateContainerTaskStatus: iteration order {norm(it)} is neither declaration order, its reverse, nor a fixpoint loop")
-    ok = children_first or fix
-    ctx.ob("R10.7", f"{upd.qual}: roll-up order {norm(it)}", (upd, loops_u[0]), ok,
-           "children are visited before their container (declaration order reversed) or the pass is repeated to a fixpoint" if ok else
-           "containers are visited in declaration order (parents first) in a single pass: each call closes one nesting level only, so an "
-           "outer container whose children are all scheduled stays unscheduled and its dependants are reported as deadlocked",
-           key="R10.7|_updateContainerTaskStatus|order")
+    rollup_order_rule(ctx, "R10.7")
     # ---------------------------------------------------------------- R10.8 roll-up around the readiness scan (shared with C07 R07.2)
     from .c07 import rollup_rules
     rollup_rules(ctx, "R10.8")
